@@ -94,8 +94,21 @@ pub fn gen_spec(rng: &mut Rng, kind: u64, quick: bool) -> PackSpec {
             let hint = hint_of(rng);
             for i in 0..n {
                 let len = if i % 97 == 0 { 0 } else { rng.below(4) as usize };
-                items.push(CItem { data: rng.low_entropy(len), hint, src: Src::Mem });
+                // every source kind on both sides of the split (the content that opens the second
+                // cluster included), a few more spread over the first cluster
+                let src = if i >= 4085 || i % 400 == 7 { [Src::File, Src::FileRange, Src::Mem][i % 3] } else { Src::Mem };
+                items.push(CItem { data: rng.low_entropy(len), hint, src });
             }
+        }
+        5 => {
+            // several uncompressed clusters closed by the 4 MiB rule, every source kind
+            label.push_str("raw-cluster-size-split");
+            let n = if quick { 4 } else { 8 };
+            for i in 0..n {
+                let len = 1_300_000 + rng.below(600_000) as usize;
+                items.push(CItem { data: rng.bytes(len), hint: Hint::No, src: [Src::File, Src::FileRange, Src::Mem, Src::File][(i + rng.below(2) as usize) % 4] });
+            }
+            items.push(CItem { data: rng.bytes(10), hint: Hint::No, src: Src::File });
         }
         2 => {
             // several compressed clusters of 4 MiB
@@ -480,6 +493,8 @@ pub fn run(ctx: &mut Ctx) {
             0 => 0,
             1 => 1,
             2 => 2,
+            5 => 5,
+            c if !ctx.quick() && c % 170 == 7 => 5,
             c if c % 9 == 3 => 3,
             c if c % 9 == 4 => 4,
             c if !ctx.quick() && c % 200 == 5 => 1,
@@ -490,6 +505,10 @@ pub fn run(ctx: &mut Ctx) {
         if kind == 2 {
             spec.comp = *crng.pick(&[Comp::Zstd(1), Comp::Lz4(1)]);
             spec.packaging = None;
+        }
+        if kind == 5 {
+            spec.packaging = None;
+            spec.dedup = false;
         }
         if kind == 4 && spec.comp == Comp::None {
             spec.comp = *crng.pick(&[Comp::Zstd(3), Comp::Lz4(3), Comp::Lzma(1)]);
